@@ -15,6 +15,15 @@ Call forms (call_forms): every way of stating the same request - unit flag omitt
          must return the double of the Lean model of that request (Model/Angle.lean `yawToHeadingCall` / `headingToYawCall`:
          degrees by default, radians when the flag is false), and is judged by the property (range, congruence) in the unit the
          call names; the documented signature `(angle, deg=True)` must bind the second positional parameter to the unit flag.
+Element orders (array_orders): arrays whose FIRST element lands exactly on an end of a range / a wrap point / zero (every multiple
+         of an eighth turn within 3 turns, every spelling; yaw = 90 deg gives heading 0, heading = 270 deg gives yaw -180, ...) followed by
+         non-integer values, rings of such values in every rotation, one- and two-element arrays; 1-D, strided, column, 2-D, Fortran
+         order, 3-D.  The result has the argument's shape and a floating-point dtype, the argument is untouched, and every element
+         is the double of the scalar call, satisfies range and congruence, and equals the rounded Lean model.
+Held results (held_results): histories of calls (both functions, both units, equal and different shapes, integer-dtype inputs, scalar
+         calls in between, results fed back in as arguments).  Every array ever returned is looked at again after every later
+         call and must hold exactly what it held when it was returned; then the caller overwrites its arguments and each result in
+         turn: no other result may change (no result shares memory with another result or with an argument).
 Stage D  the property statement itself on the real functions, judged in exact rational arithmetic: range, congruence to a quarter
          turn minus the input, mutual inverse up to a turn, radian variant == degree variant, scalar == array element (bitwise).
 """
@@ -510,10 +519,339 @@ def call_forms(ctx, values):
                     one_call(name, sig, lf, f, form, unit, spelling, pargs, kwargs, 'list of floats', list(values), values, kw_first)
 
 
+# ---- element orders: the same values as arrays in every order / layout -------------------------------------------------------------
+FUNCS = {'yaw_to_heading': ('heading', 'y2h', 0), 'heading_to_yaw': ('yaw', 'h2y', 1)}
+# non-integer followers (degrees; scaled for radians): their results are not integers in either unit
+FOLLOW = [12.75, -33.125, 200.6, 0.3, 359.999, 1e-3, 45.5, -100.2, 179.5, -0.5, 1000000.5, -719.75, 90.5, 269.5, -89.75, 77.875]
+
+
+def special_firsts(unit):
+    """Angles whose result lands exactly on an end of a range, on a wrap point or on zero: every multiple of an eighth turn in
+    [-3, 3] turns (yaw congruent to 90 deg gives heading 0, heading congruent to 270 deg gives yaw -180, ...), spelled every way
+    the double arithmetic offers, and the two zeros."""
+    out = [0.0, -0.0]
+    for k in range(-24, 25):
+        if unit.deg:
+            out.append(45.0 * k)
+        else:
+            out += [k * (math.pi / 4.0), float(np.deg2rad(45.0 * k))]
+            if k % 2:
+                out.append(math.pi / 2.0 + (k - 1) // 2 * math.pi)
+    seen, res = set(), []
+    for v in out:
+        if bits(v) not in seen:
+            seen.add(bits(v))
+            res.append(v)
+    return res
+
+
+def lands_on_zero(unit, x):
+    """x is (as a double computation) a quarter turn or three quarter turns away from a multiple of a turn."""
+    return abs(reduce_mod(Fraction(x) - unit.Q, unit.T / 2)) <= unit.tol(x)
+
+
+def layouts(vals):
+    """[(label, array)] - the values of `vals` in this (C) order in several memory layouts."""
+    a = np.array(vals, dtype=np.float64)
+    n = len(vals)
+    big = np.zeros(2 * n)
+    big[::2] = a
+    out = [('1-d', a), ('strided view', big[::2]), ('column', a.reshape(-1, 1))]
+    if n % 2 == 0 and n > 2:
+        out += [('2-d', a.reshape(2, -1)), ('Fortran-order 2-d', np.asfortranarray(a.reshape(2, -1)))]
+    if n % 6 == 0:
+        out.append(('3-d', a.reshape(1, 2, -1)))
+    return out
+
+
+def order_arrays(ctx, unit, n_rand):
+    """[(vals, [layout labels])]: (1) every special value FIRST, followed by non-integers, 1-D plus one other layout in turn;
+    (2) rings of special and non-integer values in every rotation; (3) one- and two-element arrays starting on a zero-landing value."""
+    rng = ctx.rng
+    scale = 1.0 if unit.deg else math.pi / 180.0
+    pool = [v * scale for v in FOLLOW]
+    spec = special_firsts(unit)
+    zero = [s for s in spec if lands_on_zero(unit, s)]
+    extra = ['strided view', 'column', '2-d', 'Fortran-order 2-d', '3-d']
+    out = []
+    for i, s in enumerate(spec):
+        vals = [s] + rng.sample(pool, 3) + [rng.uniform(-1080.0, 1080.0) * scale, rng.uniform(-1e6, 1e6)]
+        out.append((vals, ['1-d', extra[i % len(extra)]]))
+    for _ in range(max(2, n_rand // 1500)):
+        ring = rng.sample(zero, min(4, len(zero))) + rng.sample(spec, 2) + rng.sample(pool, 5) + [rng.uniform(-1080.0, 1080.0) * scale]
+        rng.shuffle(ring)
+        for sh in range(len(ring)):
+            out.append((ring[sh:] + ring[:sh], ['1-d'] if sh % 3 else ['1-d', '2-d']))
+    for s in zero:
+        out.append(([s], ['1-d', 'column']))
+        out.append(([s, rng.choice(pool)], ['1-d', 'column']))
+    return out
+
+
+class Elements:
+    """Judges one element of an array result: the same double as the scalar call, the property (range, congruence), the rounded
+    Lean model.  Scalar results and model values are cached per (function, input bits)."""
+
+    def __init__(self, ctx, unit, values):
+        self.ctx, self.unit = ctx, unit
+        self.f = dict(zip(('yaw_to_heading', 'heading_to_yaw'), impl()))
+        self.scalars = {}
+        uniq = sorted({bits(x) for x in values})
+        lines = []
+        for b in uniq:
+            lines += ['angle y2h_r %s %s' % (unit.Hbits, b), 'angle h2y_r %s %s' % (unit.Hbits, b)]
+        outs = ctx.driver(lines) if lines else []
+        self.model = {}
+        for ln, o in zip(lines, outs):
+            try:
+                n, d = o.split('/')
+                self.model[(ln.split()[1][:3], ln.split()[3])] = Fraction(int(n), int(d))
+            except Exception:
+                raise fv.InfraError('driver answered %r to %s' % (o[:80], ln))
+
+    def scalar(self, name, x, replay):
+        key = (name, bits(x))
+        if key not in self.scalars:
+            r = call(self.ctx, self.f[name], name, float(x), self.unit, replay)
+            self.scalars[key] = None if r is None else float(r)
+        return self.scalars[key]
+
+    def judge(self, name, x, r, text, replay):
+        ctx, unit = self.ctx, self.unit
+        sig, lf, _ = FUNCS[name]
+        r = float(r)
+        if not math.isfinite(r):
+            ctx.violation('C19/%s-not-finite' % sig, '%s: element for x = %r is %r' % (text, x, r), replay)
+            return
+        s = self.scalar(name, x, replay)
+        if s is not None and bits(r) != bits(s):
+            ctx.violation('C19/%s-scalar-array-differ' % sig, '%s: the element for x = %r is %r, but %s(%r, deg=%s) = %r'
+                          % (text, x, r, name, x, unit.deg, s), replay)
+        fr, fx = Fraction(r), Fraction(x)
+        lo = Fraction(0) if sig == 'heading' else -unit.T / 2
+        if not (lo <= fr < lo + unit.T):
+            ctx.violation('C19/%s-out-of-range' % sig, '%s: the element for x = %r is %r, outside [%s, %s)'
+                          % (text, x, r, float(lo), float(lo + unit.T)), replay)
+        d = reduce_mod(fr - (unit.Q - fx), unit.T)
+        if abs(d) > unit.tol(x):
+            ctx.violation('C19/%s-not-congruent' % sig, '%s: the element for x = %r is %r, which differs from %s - x modulo a turn by '
+                          '%.3e (tolerance %.3e)' % (text, x, r, '90' if unit.deg else 'pi/2', float(d), float(unit.tol(x))), replay)
+        mdl_r = self.model.get((lf, bits(x)))
+        if mdl_r is not None and fr != mdl_r:
+            ctx.disagree('%s: element for x = %r is %r but the rounded model gives %.17g' % (text, x, r, float(mdl_r)), replay)
+        ctx.cov['traces_validated_against_impl'] += 1
+
+
+def check_array_result(ctx, unit, name, arr, res, text, replay):
+    """The result of an array call has the shape of its argument and, for a floating-point argument, a floating-point dtype."""
+    if not isinstance(res, np.ndarray) or res.shape != arr.shape:
+        ctx.violation('C19/array-shape', '%s: argument of shape %s, result %s of shape %s'
+                      % (text, arr.shape, type(res).__name__, getattr(res, 'shape', None)), replay)
+        return False
+    if not np.issubdtype(res.dtype, np.floating):
+        ctx.violation('C19/array-dtype', '%s: the result has dtype %s - the angles are real numbers, a %s argument needs a '
+                      'floating-point result (got %s)' % (text, res.dtype, arr.dtype, res.reshape(-1)[:8].tolist()), replay)
+    return True
+
+
+def run_order(ctx, unit, vals, labels, el=None):
+    """One list of values as arrays in the named layouts, both functions; every element judged."""
+    el = el or Elements(ctx, unit, vals)
+    lay = dict(layouts(vals))
+    for name in ('yaw_to_heading', 'heading_to_yaw'):
+        for label in labels:
+            arr = lay.get(label)
+            if arr is None:
+                continue
+            replay = {'unit': unit.name, 'category': 'array-order', 'function': name, 'layout': label, 'x': repr(vals[0]),
+                      'x_bits': [bits(x) for x in vals]}
+            text = '%s(<%s float64 array [%s%s]>, deg=%s)' % (name, label, ', '.join(repr(v) for v in vals[:6]),
+                                                              ', ...' if len(vals) > 6 else '', unit.deg)
+            before = arr.tobytes()
+            res = call(ctx, el.f[name], name, arr, unit, replay)
+            ctx.count('%s_order_%s' % (unit.name, label.replace(' ', '_')))
+            if res is None:
+                continue
+            if arr.tobytes() != before:
+                ctx.violation('C19/input-modified', '%s changed its argument' % text, replay)
+            if not check_array_result(ctx, unit, name, arr, res, text, replay):
+                continue
+            for x, r in zip(vals, np.asarray(res).reshape(-1)):
+                el.judge(name, x, r, text, replay)
+            ctx.case('%s order %s %s %s' % (unit.name, name, label, ','.join(replay['x_bits'])),
+                     nontrivial=lands_on_zero(unit, vals[0]))
+
+
+def array_orders(ctx, n_rand):
+    for unit in (DEG, RAD):
+        arrays = order_arrays(ctx, unit, n_rand)
+        el = Elements(ctx, unit, [x for vals, _ in arrays for x in vals])
+        for vals, labels in arrays:
+            run_order(ctx, unit, vals, labels, el)
+
+
+# ---- results of earlier calls stay what they were ----------------------------------------------------------------------------------
+COMBOS = [(n, u) for n in ('yaw_to_heading', 'heading_to_yaw') for u in ('deg', 'rad')]
+SHAPES = [(6,), (2, 3), (3, 2), (1,), (12,), (4,), (1, 6), (2, 1, 3)]
+
+
+def history_values(ctx, unit, n, integral=False):
+    rng = ctx.rng
+    scale = 1.0 if unit.deg else math.pi / 180.0
+    if integral:
+        return [float(rng.randrange(-1080, 1081)) for _ in range(n)]
+    spec = special_firsts(unit)
+    return [rng.choice(spec) if rng.random() < 0.25 else
+            (rng.choice(FOLLOW) * scale if rng.random() < 0.5 else rng.uniform(-1080.0, 1080.0) * scale) for _ in range(n)]
+
+
+def make_step(ctx, combo, shape, dtype='float64', src=None):
+    name, uname = combo
+    st = {'function': name, 'unit': uname}
+    if src is not None:
+        st['input_from'] = src
+    elif shape is None:
+        st['scalar'] = bits(history_values(ctx, UNITS[uname], 1)[0])
+    else:
+        st.update(shape=list(shape), dtype=dtype,
+                  x_bits=[bits(x) for x in history_values(ctx, UNITS[uname], int(np.prod(shape)), dtype != 'float64')])
+    return st
+
+
+def histories(ctx, n_random, n_steps):
+    """Lists of steps.  Fixed: every (function, unit) twice on equally shaped inputs (so every ordered pair of calls occurs), for several
+    shapes; the same on alternating shapes; round trips that feed a held result back in.  Random: shapes mostly repeated, some
+    integer-dtype inputs, scalar calls in between, results fed back in."""
+    rng = ctx.rng
+    out = []
+    for shape in ((6,), (2, 3), (1,)):
+        order = COMBOS + rng.sample(COMBOS, len(COMBOS))
+        out.append([make_step(ctx, c, shape) for c in order])
+    out.append([make_step(ctx, c, SHAPES[i % 3]) for i, c in enumerate(COMBOS + COMBOS[::-1] + COMBOS)])
+    for name, uname in COMBOS:
+        other = 'heading_to_yaw' if name == 'yaw_to_heading' else 'yaw_to_heading'
+        out.append([make_step(ctx, (name, uname), (5,)), make_step(ctx, (other, uname), None, src=0),
+                    make_step(ctx, (name, uname), None, src=1), make_step(ctx, (other, uname), (5,))])
+    for _ in range(n_random):
+        main = rng.choice(SHAPES)
+        steps, arrays = [], []
+        for i in range(n_steps):
+            combo = rng.choice(COMBOS)
+            k = rng.random()
+            if arrays and k < 0.2:
+                steps.append(make_step(ctx, combo, None, src=rng.choice(arrays)))
+            elif k < 0.3:
+                steps.append(make_step(ctx, combo, None))
+                continue
+            else:
+                shape = main if rng.random() < 0.65 else rng.choice(SHAPES)
+                steps.append(make_step(ctx, combo, shape, 'int64' if rng.random() < 0.15 else 'float64'))
+            arrays.append(i)
+        out.append(steps)
+    return out
+
+
+def show_step(i, st):
+    what = 'result of call #%d' % (st['input_from'] + 1) if 'input_from' in st else \
+        repr(from_bits(st['scalar'])) if 'scalar' in st else '<%s array of shape %s>' % (st['dtype'], tuple(st['shape']))
+    return 'call #%d %s(%s, deg=%s)' % (i + 1, st['function'], what, UNITS[st['unit']].deg)
+
+
+def run_history(ctx, steps):
+    """Runs the calls in order, keeps every returned array, and after every call looks at all of them again: each must still
+    hold exactly what it held when it was returned.  Afterwards the caller re-uses its own buffers (overwrites each argument, then each
+    result in turn): no other result may change.  Stops at the first finding of a history."""
+    fs = dict(zip(('yaw_to_heading', 'heading_to_yaw'), impl()))
+    held = []        # (step index, result array, bytes when returned)
+    results = {}     # step index -> result array
+    owned = []       # argument arrays built here
+    els = {}
+
+    def rep(i):
+        first = next((s for s in steps if 'x_bits' in s), None)
+        return {'category': 'held-results', 'unit': steps[i]['unit'], 'function': steps[i]['function'],
+                'x_bits': first['x_bits'][:8] if first else [], 'steps': steps[:i + 1]}
+
+    def intact(i, after):
+        for j, r, snap in held:
+            if r.tobytes() != snap:
+                was = np.frombuffer(snap, dtype=r.dtype)
+                ctx.violation('C19/result-changed-by-later-call', 'the array returned by %s held %s when it was returned; after %s '
+                              'it holds %s' % (show_step(j, steps[j]), was[:6].tolist(), after, r.reshape(-1)[:6].tolist()), rep(i))
+                return False
+        return True
+
+    for i, st in enumerate(steps):
+        unit = UNITS[st['unit']]
+        name = st['function']
+        replay = rep(i)
+        ctx.count('history_calls')
+        if 'scalar' in st:
+            call(ctx, fs[name], name, from_bits(st['scalar']), unit, replay)
+        else:
+            if 'input_from' in st:
+                arr = results.get(st['input_from'])
+                if arr is None:
+                    continue
+            else:
+                arr = np.array([from_bits(b) for b in st['x_bits']], dtype=np.float64).astype(st['dtype']).reshape(st['shape'])
+                owned.append((i, arr))
+            vals = [float(v) for v in arr.reshape(-1)]
+            before = arr.tobytes()
+            res = call(ctx, fs[name], name, arr, unit, replay)
+            if res is None:
+                return
+            text = show_step(i, st)
+            if arr.tobytes() != before:
+                ctx.violation('C19/input-modified', '%s changed its argument' % text, replay)
+                return
+            if not check_array_result(ctx, unit, name, arr, res, text, replay):
+                return
+            if unit.name not in els:
+                els[unit.name] = Elements(ctx, unit, [])   # scalar results only; the values are judged by the other stages
+            el = els[unit.name]
+            for x, r in zip(vals, res.reshape(-1)):
+                s = el.scalar(name, x, replay)
+                if s is not None and bits(float(r)) != bits(s):
+                    ctx.violation('C19/%s-scalar-array-differ' % FUNCS[name][0], '%s: the element for x = %r is %r, but %s(%r, deg=%s) '
+                                  '= %r' % (text, x, float(r), name, x, unit.deg, s), replay)
+                    return
+            results[i] = res
+            held.append((i, res, res.tobytes()))
+        if not intact(i, show_step(i, st)):
+            return
+    last = len(steps) - 1
+    for i, arr in owned:
+        if arr.flags.writeable:
+            arr[...] = 7
+            for j, r, snap in held:
+                if r.tobytes() != snap:
+                    ctx.violation('C19/result-aliases-input', 'the array returned by %s changes when the caller overwrites the argument '
+                                  'of %s' % (show_step(j, steps[j]), show_step(i, steps[i])), rep(last))
+                    return
+    for k, (i, r, _) in enumerate(held):
+        if not r.flags.writeable:
+            continue
+        r[...] = -12345.5
+        for j, r2, snap in held[k + 1:]:
+            if r2.tobytes() != snap:
+                ctx.violation('C19/results-share-memory', 'the array returned by %s changes when the caller overwrites the array '
+                              'returned by %s' % (show_step(j, steps[j]), show_step(i, steps[i])), rep(last))
+                return
+    ctx.case('history ' + json.dumps(steps, sort_keys=True), nontrivial=True)
+
+
+def held_results(ctx, n_rand):
+    for steps in histories(ctx, max(6, n_rand // 400), 12):
+        run_history(ctx, steps)
+
+
 def run(ctx, n_rand, step_div):
     for unit in (DEG, RAD):
         run_unit(ctx, unit, inputs(ctx, unit, n_rand, step_div))
     misc(ctx)
+    array_orders(ctx, n_rand)
+    held_results(ctx, n_rand)
     call_forms(ctx, form_values(ctx, max(10, n_rand // 150)))
 
 
@@ -531,7 +869,12 @@ def check(ctx):
                        'multiples of 45 deg and of pi/4, wrap-point neighbours, integer-dtype limits and random values, each through '
                        'every call form (unit flag omitted / positional / keyword; True/False, 1/0, numpy bools; angle positional or '
                        'by keyword; float, int, every numpy integer/float dtype that holds the value, 0-d/1-d/2-d arrays, whole '
-                       'arrays, lists where accepted) against the Lean model of that call; signature (angle, deg=True). A case '
+                       'arrays, lists where accepted) against the Lean model of that call; signature (angle, deg=True). Element orders: '
+                       'arrays starting on every multiple of an eighth turn (all spellings) followed by non-integers, rings in every '
+                       'rotation, 6 layouts, result dtype floating, each element == scalar == rounded model and judged by the '
+                       'property. Held results: call histories (both functions/units, equal and different shapes, results fed back '
+                       'in); every returned array re-read after every later call and after the caller overwrites arguments and other '
+                       'results. A case '
                        'is non-trivial when a wrap took place (result differs from quarter turn - x by a turn or more) or x is within 8 tolerances of a wrap '
                        'point; distinct = distinct (unit, input bits).' % (32 if ctx.thorough else 8))
     ctx.assumptions += [
@@ -569,8 +912,14 @@ def replay(ctx, path):
         y2h, h2y = impl()
         check_signature(ctx, r['function'], {'yaw_to_heading': y2h, 'heading_to_yaw': h2y}[r['function']])
         return fv.finish(ctx, 'proof', None)
+    if r.get('category') == 'held-results':
+        run_history(ctx, r['steps'])
+        return fv.finish(ctx, 'proof', None)
     unit = UNITS[r['unit']]
     xs = [from_bits(b) for b in (xb if isinstance(xb, list) else [xb])]
+    if r.get('category') == 'array-order':
+        run_order(ctx, unit, xs, [r.get('layout', '1-d'), '1-d'])
+        return fv.finish(ctx, 'proof', None)
     run_unit(ctx, unit, [(r.get('category', 'replay'), x) for x in xs], with_id=False)
     call_forms(ctx, xs)
     return fv.finish(ctx, 'proof', None)
